@@ -110,6 +110,8 @@ def run(ctx):
     from .c09 import check_reinit
     check_reinit(ctx, pool, 'R2')
     check_redistribution(ctx, cl, 'R1')
+    from .c07 import check_enqueue_verdict
+    check_enqueue_verdict(ctx, pool, cl, N, 'R1')
     # ---------------------------------------------------------------- R3 hand-over needs death evidence
     gt = ctx.an.cfg(te, pool)
     domt = gt.dominators(edge_ok=is_flow)
